@@ -55,6 +55,16 @@ def rule_esc(ctx: Ctx) -> List[Ob]:
                            ": a state retained by the user changes under their feet") if w else
                           f"origins {sorted(og)}: no in-place write to them is reachable from the callback",
                           construct=f"callback {what} = {short(e, 60)}"))
+            # the other direction: the user may post-process what it is given (SciPy hands out copies); it
+            # must not be able to move the live iterate through it
+            live = _nonscalar(fa.eval_at(n, ast.Name(id=mm.x, ctx=ast.Load())))
+            shared = og & live
+            if what.startswith("positional") or what == "state.x":
+                obs.append(ob("ESC", f"callback {what} is not the live iterate", mm.f, e, not shared,
+                              (f"`{short(e)}` may be the very object of `{mm.x}` {sorted(shared)}: a callback that edits its argument "
+                               "in place moves the iterate while the memoised f/g and the history keep the old point") if shared else
+                              f"disjoint from the objects `{mm.x}` may be",
+                              construct=f"callback {what} = {short(e, 60)} vs live {mm.x}"))
     # history stores
     nst = 0
     for n, ck, val, site in fa.stores_into:
@@ -528,11 +538,27 @@ def rule_fields(ctx: Ctx) -> List[Ob]:
     obs: List[Ob] = []
     init = ctx.repo.func("main.initialize_X_and_G")
     reads: Dict[str, List[Tuple[object, ast.AST]]] = {}
+
+    def ck_key(n: ast.AST) -> Optional[str]:
+        """checkpoint.get("k"[, default]) / checkpoint["k"] / getattr(checkpoint, "k"[, default]) -> k"""
+        if isinstance(n, ast.Call) and dotted(n.func) == "checkpoint.get" and n.args and isinstance(n.args[0], ast.Constant):
+            return str(n.args[0].value)
+        if isinstance(n, ast.Call) and dotted(n.func) == "getattr" and len(n.args) >= 2 and src(n.args[0]) == "checkpoint" \
+                and isinstance(n.args[1], ast.Constant):
+            return str(n.args[1].value)
+        if isinstance(n, ast.Subscript) and src(n.value) == "checkpoint" and isinstance(n.slice, ast.Constant) and isinstance(n.ctx, ast.Load):
+            return str(n.slice.value)
+        return None
+
+    def is_ck_read(e: ast.AST, fld: str) -> bool:
+        return src(e) == f"checkpoint.{fld}" or ck_key(e) == fld
     for f in (mm.f, init):
         for n in walk_no_nested(f.node):
+            if ck_key(n) is not None:
+                reads.setdefault(ck_key(n), []).append((f, n))
             if isinstance(n, ast.Attribute) and isinstance(n.ctx, ast.Load):
                 d = dotted(n)
-                if d and d.startswith("checkpoint.") and not any(
+                if d and d.startswith("checkpoint.") and d != "checkpoint.get" and not any(
                         isinstance(p, ast.Attribute) and p.value is n for p in walk_no_nested(f.node)):
                     reads.setdefault(d[len("checkpoint."):], []).append((f, n))
     state = {"x", "fun", "jac", "nfev", "njev", "nit", "hess_inv.sk", "hess_inv.yk"}
@@ -551,13 +577,22 @@ def rule_fields(ctx: Ctx) -> List[Ob]:
     land = {"fun": src(kw(mm.result_of_return(mm.final_return), "fun")),
             "jac": src(kw(mm.result_of_return(mm.final_return), "jac")),
             "nit": f"{mm.istate}.nit", "nfev": f"{mm.sf}.nfev", "njev": f"{mm.sf}.ngev"}
+    # the factor fun / jac / yk were scaled with travels with them: written by a result <=> read back by a restart
+    writes_fac = [c for c in mm.results if any(k.arg == "scaling_factor" for k in c.keywords)]
+    if writes_fac or "scaling_factor" in reads:
+        land["scaling_factor"] = f"{mm.sf}.scaling_factor"
+        obs.append(ob("FIELDS", "the scaling factor is carried by every result and read back by a restart", mm.f,
+                      (writes_fac[0] if writes_fac else reads["scaling_factor"][0][1]),
+                      len(writes_fac) == len(mm.results) and "scaling_factor" in reads,
+                      f"{len(writes_fac)} of {len(mm.results)} results carry it; read back: {'scaling_factor' in reads}",
+                      construct="scaling_factor: results <-> restart"))
     for fld, tgt in land.items():
         hits = []
         for s in walk_no_nested(mm.f.node):
             if isinstance(s, (ast.Assign, ast.AnnAssign)) and getattr(s, "value", None) is not None:
                 v2 = s.value
                 branches = [v2.body, v2.orelse] if isinstance(v2, ast.IfExp) else [v2]
-                if any(src(b2) == f"checkpoint.{fld}" for b2 in branches):
+                if any(is_ck_read(b2, fld) for b2 in branches):
                     hits += [src(t) for t in (s.targets if isinstance(s, ast.Assign) else [s.target])]
         ok = tgt in hits
         gwhy = ""
@@ -568,11 +603,11 @@ def rule_fields(ctx: Ctx) -> List[Ob]:
                 if isinstance(s2, (ast.Assign, ast.AnnAssign)) and getattr(s2, "value", None) is not None and \
                         tgt in [src(t) for t in (s2.targets if isinstance(s2, ast.Assign) else [s2.target])]:
                     v2 = s2.value
-                    if isinstance(v2, ast.IfExp) and src(v2.orelse) == f"checkpoint.{fld}":
+                    if isinstance(v2, ast.IfExp) and is_ck_read(v2.orelse, fld):
                         g2 = ast.UnaryOp(op=ast.Not(), operand=v2.test)
-                    elif isinstance(v2, ast.IfExp) and src(v2.body) == f"checkpoint.{fld}":
+                    elif isinstance(v2, ast.IfExp) and is_ck_read(v2.body, fld):
                         g2 = v2.test
-                    elif src(v2) == f"checkpoint.{fld}":
+                    elif is_ck_read(v2, fld):
                         g2 = _guard_of(mm.f.node, s2)
                     else:
                         continue
